@@ -489,7 +489,8 @@ class OpWorld(World):
             return None
         if k == "observer" and method == "subscribe_source" and o.name == "spec_out":
             # spec primitive: "the operator subscribes to its i-th (named) source now"
-            self.struct["spec"].append(("sub-src", args[0], True))
+            # (second argument False: through handlers of the operator's own, not the subscriber itself)
+            self.struct["spec"].append(("sub-src", args[0], bool(args[1]) if len(args) > 1 else True))
             return None
         if k == "observer" and method == "dispose_previous" and o.name == "spec_out":
             # spec primitive: "the previous inner subscription is released now"
